@@ -43,7 +43,7 @@ def plan(tier, seed):
 
 def required(tier):
     return {"llk_vs_oracle": 1000, "structural_vs_oracle": 1000, "gap_cases": 100, "neg_inf_cases": 5,
-            "alleles_vs_oracle": 500, "pedigree_alleles_vs_oracle": 300, "cached_hits": 100,
+            "alleles_vs_oracle": 500, "pedigree_alleles_vs_oracle": 300, "cached_hits": 100, "long_locus_tiny_read_probability_cases": 500,
             "stream_lookups_checked": 8000, "stream_lookups_hit": 1500, "stream_lookups_allele_index_ge_64": 500, "stream_pedigree_lookups_checked": 2000}
 
 
@@ -66,7 +66,67 @@ def py_structural_change(genotype, idx, interval):
     return new
 
 
+def min_read_log10(reads, genotype):
+    """log10 of the smallest per-read probability under the genotype, computed in log space (no underflow)."""
+    out = 0.0
+    ploidy = len(genotype)
+    for r in range(len(reads)):
+        logs = []
+        for h in genotype:
+            t = 0.0
+            for j, a in enumerate(h):
+                v = reads[r, j, int(a)]
+                if not np.isnan(v):
+                    t += math.log10(v) if v > 0 else -1e9
+            logs.append(t)
+        mx = max(logs)
+        tot = mx + math.log10(sum(10 ** (x - mx) for x in logs) / ploidy)
+        out = min(out, tot)
+    return out
+
+
+def make_long_case(rng):
+    """Long locus (25-120 SNVs) with reads that mismatch every haplotype of the genotype at many sites: each read's
+    probability is tiny (1e-60 .. 1e-280) yet representable, while products of two or more of them are not - the sum over
+    reads must be taken in log space, read by read, exactly as the statement is written."""
+    ploidy = int(rng.integers(1, 7))
+    n_pos = int(rng.integers(25, 121))
+    n_nucl = int(rng.integers(2, 5))
+    n_alleles = rng.integers(2, n_nucl + 1, size=n_pos)
+    genotype = gen.gen_genotype(rng, ploidy, n_alleles)
+    n_reads = int(rng.integers(2, 8))
+    err = float(rng.choice([1e-6, 1e-4, 2.4e-3, 1e-2]))
+    per_site = -math.log10(err / 3)
+    reads = np.zeros((n_reads, n_pos, n_nucl))
+    for r in range(n_reads):
+        # start from a haplotype of the genotype and flip m sites so that log10 P(read | that haplotype) ~ -target
+        target = float(rng.uniform(60, 280))
+        m = int(min(n_pos, max(1, target // per_site)))
+        h = genotype[int(rng.integers(ploidy))].astype(int).copy()
+        for j in rng.permutation(n_pos)[:m]:
+            h[j] = (h[j] + 1 + int(rng.integers(n_alleles[j] - 1))) % n_alleles[j]
+        for j in range(n_pos):
+            na = int(n_alleles[j])
+            reads[r, j, :na] = err / (na - 1)
+            reads[r, j, h[j]] = 1 - err
+        if rng.random() < 0.3:
+            reads[r, rng.permutation(n_pos)[: int(rng.integers(1, 6))], :] = np.nan
+    counts = None if rng.random() < 0.3 else (np.ones(n_reads, dtype=np.int64) if rng.random() < 0.6 else rng.integers(1, 4, size=n_reads).astype(np.int64))
+    idx = rng.integers(0, ploidy, size=ploidy).astype(np.int8)
+    lo = int(rng.integers(0, n_pos))
+    interval = None if rng.random() < 0.2 else (lo, int(rng.integers(lo, n_pos + 1)))
+    # the statement is about real arithmetic; double arithmetic can follow it only while every read's probability is a
+    # NORMAL double (below 2.2e-308 products lose bits, and the kernel and the oracle multiply in different orders).  The
+    # rearranged genotype must satisfy that as well, otherwise the rearrangement is replaced by the identity.
+    if min_read_log10(reads, py_structural_change(genotype, idx, interval)) < -290:
+        idx = np.arange(ploidy).astype(np.int8)
+    assert min_read_log10(reads, genotype) >= -290
+    return dict(reads=reads, counts=counts, genotype=genotype, idx=idx, interval=interval, long=True)
+
+
 def make_case(rng):
+    if rng.random() < 0.06:
+        return make_long_case(rng)
     ploidy = int(rng.integers(1, 9)) if rng.random() < 0.85 else int(rng.choice([9, 10, 12, 16]))
     n_pos = int(rng.integers(0, 9))
     n_nucl = int(rng.integers(2, 5))
@@ -96,6 +156,8 @@ def check_case(c, col, K):
         return
     if has_gap:
         col.count("gap_cases")
+    if c.get("long"):
+        col.count("long_locus_tiny_read_probability_cases")
     if expect == -math.inf:
         col.count("neg_inf_cases")
     bad = []
